@@ -151,7 +151,9 @@ class Interp:
                             target = self.by_name.get(part[1])
                             if target is None:
                                 raise Unsupported("initializer references unknown label %s" % part[1])
-                            a = self.addr_of[target]
+                            # (ir.ptr, name) or, for an address constant with a byte offset, (ir.ptr, name, offset)
+                            off = part[2] if len(part) > 2 else 0
+                            a = (self.addr_of[target] + off) % (1 << (8 * ptr_size))
                             r.data[pos:pos + ptr_size] = a.to_bytes(ptr_size, self.endian)
                             pos += ptr_size
                         else:
